@@ -12,7 +12,7 @@ SPEC = {
         {"kind": "JSON", "type": "(cval * json * option cval * option cval * list (str * str))", "eval": "check_json", "per_shard": 150},
     ],
     "classes": {1: "control-char-decimal-escape", 2: "enum-keyword-prefix", 3: "float-text-inexact"},
-    "n_quick": 2000, "n_thorough": 80000,
+    "n_quick": 2000, "n_thorough": 8000,
     "level": "proof",
     "what_violation": "printed literal does not read back as the value / JSON conversion loses the value",
     "rule": ("random nested ConstValues (depth <= 3): strings over C0/C1 controls, quotes, backslashes, BOM, separators, "
